@@ -1053,10 +1053,11 @@ class Translator:
             if re.search(r"\b(__thread|const)\b", mo.group(0)):
                 return mo.group(0)
             nm = "%s__%s" % (f.cname, mo.group(3))
-            hoisted.append("static %s%s%s;" % (mo.group(2), nm, mo.group(4) or ""))
+            hoisted.append("static %s%s%s%s;" % (mo.group(2), nm, mo.group(4) or "", mo.group(5) or ""))
             self.fire("function-local static hoisted to file scope")
             return "%s/* static local %s hoisted: %s */\n#define %s %s\n" % (mo.group(1), mo.group(3), nm, mo.group(3), nm)
-        body = re.sub(r"(^|\n)[ \t]*static\s+([^;=(){}]*?[\s*])(\w+)\s*(=[^;]*)?;", hoist, body)
+        # (an alignment specifier may precede `static`; the declarator may be an array)
+        body = re.sub(r"(^|\n)[ \t]*(?:(?:alignas|_Alignas)\s*\([^)]*\)\s*|__attribute__\s*\(\([^;]*?\)\)\s*)*static\s+([^;=(){}]*?[\s*])(\w+)\s*((?:\[[^\]]*\])*)\s*(=[^;]*)?;", hoist, body)
         undef = "".join("#undef %s\n" % re.search(r"__(\w+?)(?:\[|\s|=|;)", h.split("static ", 1)[1].split(f.cname, 1)[1]).group(1) for h in hoisted)
         return proto, "\n".join(hoisted) + ("\n" if hoisted else "") + proto + "\n" + body + ("\n" + undef if hoisted else "")
 
